@@ -387,9 +387,12 @@ def argmin(self, axis=None, skipna=False):
     res = apply_along_axis(obj, 'argmin', axis=idx, skipna=skipna)
 
     # along axis: single axis value
-    if axis is not None: # res is DimArray
+    if axis is not None and is_DimArray(res): # res is DimArray
         res.values = obj.axes[idx].values[res.values] 
         return res
+
+    elif axis is not None: # 1-D array: res is the position along the only axis
+        return obj.axes[idx].values[res]
 
     # flattened array: tuple of axis values
     else: # res is ndarray
@@ -410,9 +413,12 @@ def argmax(self, axis=None, skipna=False):
     res = apply_along_axis(obj, 'argmax', axis=idx, skipna=skipna)
 
     # along axis: single axis value
-    if axis is not None: # res is DimArray
+    if axis is not None and is_DimArray(res): # res is DimArray
         res.values = obj.axes[idx].values[res.values] 
         return res
+
+    elif axis is not None: # 1-D array: res is the position along the only axis
+        return obj.axes[idx].values[res]
 
     # flattened array: tuple of axis values
     else: # res is ndarray
